@@ -87,6 +87,75 @@ def collect(seed, count):
     return recs
 
 
+def collect_dist(seed, tier):
+    """Predictions for SINGLE_INSTANCE / SINGLE_NODE applications (c14_dist layout: the programs carry their own
+    identifiers rule - n1 only - that the application rule replaces, so the chosen instance is often one the program
+    rule excludes)."""
+    import c14_dist
+    from recorder import full_snapshot
+    from simcluster import Cluster
+    layout, rules, apps = c14_dist.layout_rules()
+    rnd = random.Random(seed * 29 + 19)
+    pc = pl.PlacementCluster.__new__(pl.PlacementCluster)
+    pc.c = Cluster(layout, options={'synchro_options': 'LIST,TIMEOUT', 'synchro_timeout': '15'}, rules_xml=rules)
+    pc.c.boot_all()
+    for _ in range(14):
+        pc.c.round()
+    pc.down, pc.disabled = set(), {}
+    c = pc.c
+    recs = []
+    try:
+        if c.fsm_state('n1') != 'OPERATION':
+            raise MachineryFailure('C19 dist harness: no OPERATION')
+        todo = [(a, s) for a in apps if a[3] == 'all' for s in ('CONFIG', 'LESS_LOADED', 'MOST_LOADED_NODE')]
+        rnd.shuffle(todo)
+        for (a, dist, rule, kn), strategy in todo[:(12 if tier == 'quick' else 200)]:
+            pc.set_loads({n: rnd.choice([0, 0, 30, 40]) for n in pl.NODES})
+            before = full_snapshot(c, 'n1')
+            mark = len(c.wirelog)
+            c.errors = []
+            answers = [c.rpc('n1', 'test_start_application', strategy, a) for _ in range(2)]
+            pushed = [w for w in c.wirelog[mark:] if w[1].startswith('push_') and w[1] != 'push_not']
+            after = full_snapshot(c, 'n1')
+            errs = list(c.errors)
+            c.errors = []
+            predicted, fault_p = [], None
+            if answers[0][0] == 'ok':
+                for x in answers[0][1]:
+                    ids = x['running_identifiers']
+                    predicted.append([x['process_name'], int(c.nick(ids[0])[1]) if ids else 0])
+            else:
+                fault_p = answers[0][1] if answers[0][0] == 'fault' else 'error'
+            mark = len(c.wirelog)
+            real = c.rpc('n1', 'start_application', strategy, a, False)
+            for _ in range(4):
+                pc.rounds(1)
+            actual = {}
+            for w in c.wirelog[mark:]:
+                if w[1] == 'push_req' and w[4] == 1:
+                    actual[w[5][0].split(':')[1]] = int(w[3][1])
+            errs += list(c.errors)
+            c.errors = []
+            fault_r = real[1] if real[0] == 'fault' else None
+            if fault_p is None:
+                for name, _ in predicted:
+                    actual.setdefault(name, 0)
+            # (processes of later start groups are requested once the first ones run: only placement is compared)
+            recs.append({'silent': not pushed, 'same': before == after,
+                         'stable': json.dumps(answers[0], sort_keys=True, default=str) ==
+                         json.dumps(answers[1], sort_keys=True, default=str),
+                         'predicted': sorted(predicted), 'actual': [[k, x] for k, x in sorted(actual.items())],
+                         'fault': fault_p is not None and (fault_r == fault_p or fault_p in (40,)),
+                         'err': errs[0]['exc'][-200:] if errs else ('error' if 'error' in (answers[0][0], real[0]) else ''),
+                         '_sit': {'app': a, 'dist': dist, 'rule': rule, 'strategy': strategy,
+                                  'diff': [k for k in before if before[k] != after.get(k)],
+                                  'fault_p': fault_p, 'fault_r': fault_r}})
+            pc.stop_all_targets()
+    finally:
+        pc.close()
+    return recs
+
+
 def main(tier, seed, replay=None):
     v = vlib.Verdict('C19', tier, seed)
     if replay:
@@ -95,6 +164,7 @@ def main(tier, seed, replay=None):
         return 0
     pk.definition_selfcheck(v)
     recs = collect(seed, 400 if tier == 'quick' else 5000)
+    recs += collect_dist(seed, tier)
     v.sample({k: x for k, x in recs[5].items()})
     pk.judge(v, recs, ['C19.Silent', 'C19.Unchanged', 'C19.Repeatable', 'C19.Matches'], module='PredictMon',
              tag='predict')
